@@ -432,7 +432,7 @@ def w_reformat(args):
             both = factors_of(parser, formula + " + " + fv)
             ok = got == ref and both == ref
             if ok:
-                ok = bool(Formula(formula, _parser=parser) == Formula(fv, _parser=parser))
+                ok = C1._lib_equal(lambda: Formula(formula, _parser=parser) == Formula(fv, _parser=parser))
             if not ok:
                 kind = "factors-differ" if ref[0] == "ok" and got[0] == "ok" else f"{ref[0]}-vs-{got[0]}:{got[1] if got[0] != 'ok' else ref[1]}"
                 cause = f"edge-whitespace:{edge}" if edge else ("newline" if "\n" in fv else ("string-literal" if any(q in fv for q in "\"'") else "other"))
@@ -620,7 +620,10 @@ def lib_tokens(s):
     try:
         for t in tokenize(s):
             toks.append((t.token, t.kind.value if t.kind else None, t.source_start, t.source_end))
-            ctxs.append((t.get_source_context(), t.get_source_context(colorize=True)))
+            try:
+                ctxs.append((t.get_source_context(), t.get_source_context(colorize=True)))
+            except Exception as e:  # outcome: judged as a wrong rendering
+                ctxs.append((f"<raised {type(e).__name__}>", None))
     except Exception as e:  # outcome; spans of the tokens produced so far are still judged
         err = e
     return toks, err, ctxs
@@ -647,6 +650,17 @@ def highlighted_span(message, s):
 
 
 def check_spans(acc, s, expected=None, family="arbitrary"):
+    """Guarded: an exception while judging is a violation of the span clause; returns ([], error)."""
+    try:
+        return _check_spans(acc, s, expected, family)
+    except Exception as e:
+        w = {"string": s, "exception": f"{type(e).__name__}: {e}"[:300],
+             "code": "from vf.bounded import c15\nacc = c15.Acc()\nc15._check_spans(acc, %r, %r, %r)\nassert not acc.failures, acc.failures[:1]\n" % (s, expected, family)}
+        acc.fail("C15.spans.oracle", f"oracle-not-applicable:{type(e).__name__}", w, f"judging tokenize({s!r}) raised {type(e).__name__}: {e}"[:400])
+        return [], e
+
+
+def _check_spans(acc, s, expected=None, family="arbitrary"):
     toks, err, ctxs = lib_tokens(s)
     acc.case((family, s), bool(toks), sample={"string": s, "tokens": toks[:6]} if toks else None)
     prev_end = -1
@@ -820,6 +834,10 @@ def injected_errors(tokens, gaps):
 
 
 def check_error_highlights(acc, tokens, gaps):
+    C1.guard_case(acc, "C15.spans.error-highlight", "c15", "_check_error_highlights", (tokens, gaps), {"string": "".join(g + t for g, t in zip(gaps, tokens))})
+
+
+def _check_error_highlights(acc, tokens, gaps):
     from formulaic.errors import FormulaSyntaxError
 
     parser = C1.get_parser(True)
@@ -924,12 +942,15 @@ if msg is not None and "\\u29db" in msg:
 
 
 # --------------------------------------------------------------------------------------
+WORKER_DRIVER = {"w_whitespace": "whitespace", "w_names": "quoted-names", "w_reformat": "python-reformatting", "w_verbatim": "python-verbatim",
+                 "w_string_tokens": "string-tokens", "w_spans_grammar": "token-spans", "w_spans_arbitrary": "token-spans"}
+
+
 def _run(task):
     import warnings
 
     warnings.filterwarnings("ignore", category=SyntaxWarning)
-    fn, args = task
-    return fn(args)
+    return C1.run_task_safely(task, "c15", WORKER_DRIVER, "C15.driver.worker")
 
 
 def run_bounded(ctx):
